@@ -7,7 +7,7 @@
       _refuted theorems about rp_orig / rp_no_* to real code;
   (2) runs the registered check against that tree and reports whether it fired.
 
-usage: tools/c15_variants.py [<commit of /repo that has all seven repairs, default HEAD>]
+usage: tools/c15_variants.py [<commit of /repo that has all eight repairs, default HEAD>]
        (each variant = that tree with some repairs taken out by tools/c15_patches.py --reverse)"""
 import os
 import random
@@ -18,20 +18,20 @@ ROOT = os.path.dirname(os.path.dirname(os.path.abspath(__file__)))
 sys.path.insert(0, os.path.join(ROOT, "tools"))
 
 # repair number -> position of its flag in the variant string
-# (bitidx shguard nooverwrite rbflag arm resp_rb resp_nowrite)
-FLAGPOS = {1: 0, 2: 1, 3: 3, 4: 2, 5: 4, 6: 5, 7: 6}
+# (bitidx shguard nooverwrite rbflag arm resp_rb resp_nowrite abort_rb)
+FLAGPOS = {1: 0, 2: 1, 3: 3, 4: 2, 5: 4, 6: 5, 7: 6, 8: 7}
 
 
 def main():
     base = sys.argv[1] if len(sys.argv) > 1 else "HEAD"
     patches = os.path.join(ROOT, "tools", "c15_patches.py")
     results = []
-    for missing in [None, 1, 2, 3, 4, 5, 6, 7, "all"]:
+    for missing in [None, 1, 2, 3, 4, 5, 6, 7, 8, "all"]:
         wt = "/var/tmp/verif.wt.C15v"
         subprocess.run(["git", "-C", "/repo", "worktree", "remove", "--force", wt], capture_output=True)
         subprocess.run(["git", "-C", "/repo", "worktree", "add", "--detach", wt, base], check=True, capture_output=True)
-        flags = ["y"] * 7
-        for n in (7, 6, 5, 4, 3, 2, 1):
+        flags = ["y"] * 8
+        for n in (8, 7, 6, 5, 4, 3, 2, 1):
             if missing == "all" or n == missing:
                 subprocess.run([sys.executable, patches, str(n), wt, "--reverse"], check=True, capture_output=True)
                 flags[FLAGPOS[n]] = "n"
@@ -43,7 +43,7 @@ sys.path.insert(0, "%s/tools")
 import vlib, gen_replay as G
 var = "%s"
 model = vlib.build_model()
-drv = vlib.build_driver("h_replay", ["h_replay.c"], wraps=["coap_socket_send"])
+drv = vlib.build_driver("h_replay", ["h_replay.c"], wraps=["coap_socket_send", "coap_malloc_type"])
 r = random.Random(7)
 lines = list(vlib.read_corpus("C15"))
 lines += list(G.rpu_exhaustive("32", G.UNIT_ALPHABET, 3))
